@@ -229,4 +229,5 @@ BOUNDED = [Bounded("estimators.compiled", _bounded_variants, "validity, returns-
 
 CONTRACTS = [distribution, cholesky, solver]
 TRUSTED = []
-EXPLANATION = ""
+EXPLANATION = ("mem2_directional_distribution proved non-negative with unit integral for any finite multipliers; every return path of the MEM2 Newton solver proved to return such a distribution; "
+               "MEM, scipy, estimate.py normalisation, batch independence and no-raise on compiled code are a bounded check over seeded moment quadruples")
